@@ -93,6 +93,7 @@ type side struct {
 	written []byte
 	got     []byte
 	ds, ps  int
+	seen    map[uint32]uint16 // FEC id -> type of what was delivered to this side
 }
 
 type world struct {
@@ -371,6 +372,20 @@ func (w *world) peer(x *side) *side {
 // input hands one datagram to the session's receive path (packetInput, what readLoop calls for every
 // datagram it reads) in this goroutine, so that a panic of the real code is recovered and reported.
 func (w *world) input(x *side, p []byte) {
+	// The auto-tune window must stay a strict weak order for the sort inside FindPeriod: with two
+	// samples of equal id and different type (or ids 2^31 apart) the result legitimately depends on
+	// the sorting algorithm (component autotune checks only panic-freedom there).  The network of this
+	// component therefore drops a datagram whose FEC id was already delivered with the other type.
+	if len(p) >= 12 {
+		if t := binary.LittleEndian.Uint16(p[4:]); t == typeData || t == typeParity {
+			seq := binary.LittleEndian.Uint32(p)
+			if t0, ok := x.seen[seq]; ok && t0 != t {
+				w.o.Count("fate:drop-conflicting-fec-id")
+				return
+			}
+			x.seen[seq] = t
+		}
+	}
 	kcp.VerifSetClock(w.now)
 	gp := w.gap(x)
 	op := fmt.Sprintf("sinput %s %d %d", hx.Hex(p), w.now, gp)
@@ -484,7 +499,7 @@ func (w *world) forge(x *side) {
 	n := uint32(d + p)
 	gi := newest + uint32([]int{0, 1, 1, 2, 3, 7}[g.Intn(6)])
 	if g.Chance(15) {
-		gi = g.U32() / n
+		gi = newest + uint32(g.Intn(400)) // far ahead, still well inside 2^31 of everything else
 	}
 	base := gi * n
 	switch g.Intn(8) {
@@ -640,8 +655,8 @@ func (w *world) history(fa, fb [2]int) {
 	ca, cb := newMemConn(aAddr), newMemConn(bAddr)
 	sa, _ := kcp.NewConn3(conv, bAddr, nil, fa[0], fa[1], ca)
 	sb, _ := kcp.NewConn3(conv, aAddr, nil, fb[0], fb[1], cb)
-	w.a = &side{name: "a", s: sa, conn: ca, addr: aAddr, ds: fa[0], ps: fa[1]}
-	w.b = &side{name: "b", s: sb, conn: cb, addr: bAddr, ds: fb[0], ps: fb[1]}
+	w.a = &side{name: "a", s: sa, conn: ca, addr: aAddr, ds: fa[0], ps: fa[1], seen: map[uint32]uint16{}}
+	w.b = &side{name: "b", s: sb, conn: cb, addr: bAddr, ds: fb[0], ps: fb[1], seen: map[uint32]uint16{}}
 	w.loss = []int{5, 12, 20, 30}[g.Intn(4)]
 	w.forged = g.Chance(50)
 	w.mismatch = fa != fb
